@@ -172,7 +172,12 @@ func (s *seqRun) step(i int, o Op) bool {
 		_ = before
 		r := s.a.apply(s.w.Ctx, o)
 		an := actorName(s.m, o.tx())
-		if o.K == "commit" && r.Class == "other" && s.faultAt(i) {
+		if o.Ctx == "dead" && r.Err != nil && (r.Class == "other" || r.Class == "ErrUnknown") && !s.faultAt(i) {
+			// the call was made with a context that was already cancelled and was refused (the
+			// external client fails fast): it must then have had no effect, which the read-backs
+			// after this step and the rest of the history check against the unchanged model
+			s.faults["dead-context-call-refused"]++
+		} else if o.K == "commit" && r.Class == "other" && s.faultAt(i) {
 			// injected storage failure: the commit must fail as a whole
 			s.m.CommitFailed(o.tx())
 			s.faults["badger-update-failed-in-commit"]++
@@ -189,6 +194,12 @@ func (s *seqRun) step(i int, o Op) bool {
 		} else if cl, d := modelApply(s.m, o, r, s.idx); cl != "" {
 			s.fail(cl, fmt.Sprintf("op=%s,actor=%s", o.K, an), fmt.Sprintf("step %d (%s by %s): %s", i, o, an, d))
 			return false
+		}
+		if o.Ctx == "dead" && r.Err == nil {
+			s.probes["dead-context-call-served"]++
+		}
+		if o.Ctx == "percall" {
+			s.faults["context-cancelled-after-return"]++
 		}
 		if an == "ended" || an == "unknown" {
 			s.probes["late-call"]++
